@@ -311,6 +311,59 @@ def p_chain(I, n, pos, kw):
     return Seq(out, "list")
 
 
+def _concrete_items(I, v, n):
+    """the items of a list / tuple / small concrete range, or None"""
+    if isinstance(v, Seq):
+        return list(v.items)
+    if isinstance(v, ObjV) and v.tag == "lazy-map":
+        return _realise_map(I, v, n)
+    if isinstance(v, ObjV) and v.tag in ("range", "strided-range", "zip", "enumerate"):
+        sp, iv, elem = I.iteration(v, n)
+        if sp is None:
+            return list(elem)
+    return None
+
+
+@prim("itertools.combinations", "itertools.product", "itertools.permutations", "itertools.combinations_with_replacement")
+def p_itertools_tuples(I, n, pos, kw):
+    """tuples of items of concrete sequences, in itertools' order"""
+    import itertools as _it
+    tgt = I.log[-1]["target"].rsplit(".", 1)[1]
+    if tgt == "product":
+        seqs = [_concrete_items(I, v, n) for v in pos]
+        rep_ = kw.get("repeat")
+        if any(x is None for x in seqs) or not seqs:
+            return I.unknown("prim:itertools.product", n)
+        if rep_ is not None:
+            if not (isinstance(rep_, Sc) and rep_.e[0] == "num"):
+                return I.unknown("prim:itertools.product", n)
+            seqs = seqs * int(rep_.e[1])
+        total = 1
+        for x in seqs:
+            total *= max(1, len(x))
+        if total > 200:
+            return I.unknown("prim:itertools.product", n)
+        return Seq([Seq(list(t), "tuple") for t in _it.product(*seqs)], "list")
+    items = _concrete_items(I, pos[0], n) if pos else None
+    r = pos[1] if len(pos) > 1 else kw.get("r")
+    if items is None or (r is not None and not (isinstance(r, Sc) and r.e is not None and r.e[0] == "num")):
+        return I.unknown("prim:itertools." + tgt, n)
+    k = int(r.e[1]) if r is not None else len(items)
+    if len(items) > 8:
+        return I.unknown("prim:itertools." + tgt, n)
+    f = getattr(_it, tgt)
+    return Seq([Seq(list(t), "tuple") for t in f(items, k)], "list")
+
+
+@prim("functools.partial")
+def p_partial(I, n, pos, kw):
+    """partial(f, *args, **kw): a callable that remembers them"""
+    if not pos or not isinstance(pos[0], FuncV):
+        return I.unknown("prim:functools.partial", n)
+    fv = FuncV("partial", (pos[0], list(pos[1:]), dict(kw)))
+    return fv
+
+
 @prim("itertools.accumulate")
 def p_accumulate(I, n, pos, kw):
     """running sums of a list of known numbers / scalars (default addition only)"""
@@ -427,7 +480,11 @@ def p_list(I, n, pos, kw):
     v = pos[0]
     if isinstance(v, Seq):
         return Seq(list(v.items), "list")
-    if isinstance(v, ObjV) and v.tag in ("zip", "enumerate", "range"):
+    if isinstance(v, ObjV) and v.tag == "lazy-map":
+        items = _realise_map(I, v, n)
+        if items is not None:
+            return Seq(items, "list" if I.log[-1]["target"].endswith("list") else "tuple")
+    if isinstance(v, ObjV) and v.tag in ("zip", "enumerate", "range", "lazy-map"):
         sp, iv, elem = I.iteration(v, n)
         if sp is None:
             return Seq(elem, "list")
@@ -1588,6 +1645,106 @@ def p_cityblock(I, n, pos, kw):
         name = "l1_sorted" if (ba.is_sorted and bb.is_sorted) else "l1_positional"
         return Sc(sym.fn(name, ba.elem, bb.elem))
     return arrays.reduce_all(arrays.unop(lambda e: sym.fn("abs", e), arrays.binop(sym.sub, a, b)), "sum")
+
+
+_OPERATOR_BIN = {"add": sym.add, "sub": sym.sub, "mul": sym.mul, "truediv": sym.div}
+
+
+@prim("operator.add", "operator.sub", "operator.mul", "operator.truediv")
+def p_operator_bin(I, n, pos, kw):
+    t = I.log[-1]["target"].rsplit(".", 1)[1]
+    if len(pos) != 2:
+        return I.unknown("prim:operator." + t, n)
+    if t == "truediv":
+        I.event("div", n, num=pos[0], den=pos[1])
+    return arrays.binop(_OPERATOR_BIN[t], pos[0], pos[1])
+
+
+@prim("operator.neg", "operator.abs")
+def p_operator_un(I, n, pos, kw):
+    t = I.log[-1]["target"].rsplit(".", 1)[1]
+    return arrays.unop(sym.neg if t == "neg" else (lambda e: sym.fn("abs", e)), pos[0])
+
+
+@prim("operator.lt", "operator.le", "operator.gt", "operator.ge", "operator.eq", "operator.ne")
+def p_operator_cmp(I, n, pos, kw):
+    import ast as _ast
+    t = I.log[-1]["target"].rsplit(".", 1)[1]
+    op = {"lt": _ast.Lt, "le": _ast.LtE, "gt": _ast.Gt, "ge": _ast.GtE, "eq": _ast.Eq, "ne": _ast.NotEq}[t]()
+    return I.compare(op, pos[0], pos[1], n)
+
+
+@prim("numpy.subtract.outer", "numpy.add.outer", "numpy.multiply.outer", "numpy.maximum.outer", "numpy.minimum.outer")
+def p_ufunc_outer(I, n, pos, kw):
+    """ufunc.outer(a, b) of 1-d arrays: entry (i, j) is a[i] op b[j]"""
+    t = I.log[-1]["target"].split(".")[1]
+    a = pos[0] if isinstance(pos[0], Arr) else arrays.to_arr(pos[0])
+    b = pos[1] if isinstance(pos[1], Arr) else arrays.to_arr(pos[1])
+    if not (isinstance(a, Arr) and isinstance(b, Arr) and a.ndim == 1 and b.ndim == 1):
+        return I.unknown("prim:numpy." + t + ".outer", n)
+    f = {"subtract": sym.sub, "add": sym.add, "multiply": sym.mul, "maximum": lambda x, y: sym.fn("max", x, y),
+         "minimum": lambda x, y: sym.fn("min", x, y)}[t]
+    a2, b2 = a.renamed(), b.renamed()
+    return Arr([a2.axes[0], b2.axes[0]], f(a2.elem, b2.elem), "nd")
+
+
+@prim("functools.reduce")
+def p_reduce(I, n, pos, kw):
+    """reduce(f, items[, initial]) over a sequence of known length: f applied left to right"""
+    if len(pos) < 2:
+        return I.unknown("prim:functools.reduce", n)
+    items = _concrete_items(I, pos[1], n)
+    if items is None and isinstance(pos[1], ObjV) and pos[1].tag == "lazy-map":
+        items = _realise_map(I, pos[1], n)
+    if items is None:
+        return I.unknown("prim:functools.reduce", n)
+    if len(pos) > 2:
+        acc = pos[2]
+    elif items:
+        acc, items = items[0], items[1:]
+    else:
+        I.event("raise", n, exc="TypeError")
+        return I.unknown("reduce-of-empty", n)
+    for x in items:
+        acc = I.apply(pos[0], [acc, x], {}, n, {})
+    return acc
+
+
+def _realise_map(I, m, n):
+    """the items of a lazy map/starmap over sequences of known length, or None"""
+    srcs = [_concrete_items(I, x, n) if not (isinstance(x, ObjV) and x.tag == "lazy-map") else _realise_map(I, x, n)
+            for x in m.attrs["iterables"]]
+    if any(x is None for x in srcs):
+        # a 2-d array of known first length: its rows
+        srcs2 = []
+        for x, s_ in zip(m.attrs["iterables"], srcs):
+            if s_ is None:
+                a = x if isinstance(x, Arr) else arrays.to_arr(x) if isinstance(x, (Seq,)) else None
+                if isinstance(a, Arr) and a.axes[0][0].concrete is not None:
+                    s_ = [arrays.index(a, [("int", k)]) for k in range(a.axes[0][0].concrete)]
+            srcs2.append(s_)
+        srcs = srcs2
+    if any(x is None for x in srcs):
+        return None
+    out = []
+    for tup in zip(*srcs):
+        if m.attrs["star"]:
+            args = _concrete_items(I, tup[0], n)
+            if args is None:
+                return None
+        else:
+            args = list(tup)
+        out.append(I.apply(m.attrs["f"], args, {}, n, {}))
+    return out
+
+
+@prim("builtins.map", "itertools.starmap")
+def p_map(I, n, pos, kw):
+    """map(f, xs, ...) / starmap(f, tuples): lazily — realised when consumed (list, tuple, unpacking, reduce, a for loop)"""
+    if len(pos) < 2:
+        return I.unknown("prim:builtins.map", n)
+    star = I.log[-1]["target"].endswith("starmap")
+    return ObjV(None, dict(f=pos[0], iterables=list(pos[1:]), star=star), tag="lazy-map")
 
 
 @prim("operator.itemgetter")
